@@ -38,7 +38,8 @@ def diff(a, b):
         GEN_AXIOMS.append(('fin-diff[%s]' % a.t.args[0].key, ForAll([A, B], Implies(f(A), f(d(A, B))))))
         # two set identities (pointwise tautologies) used to move single-element updates through a difference
         x = Const('x', sort_of(a.t.args[0])); T_, F_ = z3.BoolVal(True), z3.BoolVal(False)
-        GEN_LEMMAS.extend(['diff-remove-right[%s]' % a.t.args[0].key, 'diff-add-both[%s]' % a.t.args[0].key, 'diff-of-subset-empty[%s]' % a.t.args[0].key])
+        GEN_LEMMAS.extend(['diff-remove-right[%s]' % a.t.args[0].key, 'diff-add-both[%s]' % a.t.args[0].key, 'diff-of-subset-empty[%s]' % a.t.args[0].key, 'diff-add-right[%s]' % a.t.args[0].key])
+        GEN_AXIOMS.append(('diff-add-right[%s]' % a.t.args[0].key, ForAll([A, B, x], d(A, z3.Store(B, x, T_)) == z3.Store(d(A, B), x, F_))))
         GEN_AXIOMS.append(('diff-remove-right[%s]' % a.t.args[0].key, ForAll([A, B, x], d(A, z3.Store(B, x, F_)) == z3.Store(d(A, B), x, Select(A, x)))))
         GEN_AXIOMS.append(('diff-of-subset-empty[%s]' % a.t.args[0].key, ForAll([A, B], Implies(ForAll([x], Implies(Select(A, x), Select(B, x))), d(A, B) == z3.K(sort_of(a.t.args[0]), F_)), patterns=[d(A, B)])))
         GEN_AXIOMS.append(('diff-add-both[%s]' % a.t.args[0].key, ForAll([A, B, x], d(z3.Store(A, x, T_), z3.Store(B, x, T_)) == z3.Store(d(A, B), x, F_))))
